@@ -193,6 +193,18 @@ static void prime_heap(void)
 	for (int i = 0; i < NB; i++) free(blocks[i]);
 }
 
+/* SZV_STACK_PRIME=<w>: before every case, fill a large region of the stack below main's frame with the 32-bit word w, so that
+ * an uninitialised local of the library reads as w (a float or int of that pattern) -- the stack counterpart of SZV_HEAP_PRIME */
+static void __attribute__((noinline)) prime_stack(void)
+{
+	const char* e = getenv("SZV_STACK_PRIME");
+	if (!e) return;
+	uint32_t w = (uint32_t)strtoul(e, NULL, 16);
+	volatile uint32_t pad[1 << 18];      /* 1 MiB */
+	for (size_t i = 0; i < (1 << 18); i++) pad[i] = w;
+	__asm__ volatile("" : : "r"(pad) : "memory");
+}
+
 int main(int argc, char** argv)
 {
 	size_t cap = 1 << 20; char* line = (char*)malloc(cap);
@@ -214,6 +226,7 @@ int main(int argc, char** argv)
 		while ((tok = strtok_r(NULL, " ", &save)) && n < 64) args[n++] = tok;
 		int found = 0;
 		prime_heap();
+		prime_stack();
 		for (struct op* o = base_ops; o->name && !found; o++) if (!strcmp(o->name, opname)) { o->fn(n, args); found = 1; }
 		for (struct op* o = more_ops; o->name && !found; o++) if (!strcmp(o->name, opname)) { o->fn(n, args); found = 1; }
 #ifdef WITH_MEM
